@@ -33,7 +33,7 @@ type Facts struct {
 
 // Op is one call on the Response.
 type Op struct {
-	Kind   string // pp acc wh w wes we wse whe wen waj wax wj whj whx
+	Kind   string // pp acc hd wh w wes we wse whe wen waj wax wj whj whx
 	Status int
 	N      int    // payload size of w / wes / we
 	ErrNil bool   // we: err == nil
@@ -41,6 +41,9 @@ type Op struct {
 	Acc    string // acc: n j x
 	Mime   string // acc: the Accept string that was set (one of several leading to the same accessor)
 	Val    Value
+	// hd: a change of the response's header map (the one the Response shares with the writer beneath
+	// it): Via = set | add | addheader | raw | del, HName as spelled, HValue the declared value
+	Via, HName, HValue string
 }
 
 // FailSpec tells the bottom writer when to fail, and with WHICH error value.
@@ -149,6 +152,8 @@ func (o Op) Sx() *sx.Node {
 		return sx.K("pp", sx.B(o.B))
 	case "acc":
 		return sx.K("acc", sx.A(o.Acc))
+	case "hd":
+		return sx.K("hd", sx.A(o.Via), sx.H(o.HName), sx.H(o.HValue))
 	case "wh":
 		return sx.K("wh", sx.N(o.Status))
 	case "w":
@@ -175,6 +180,18 @@ func (o Op) Human() string {
 		return "resp.PrettyPrint(" + strconv.FormatBool(o.B) + ")"
 	case "acc":
 		return fmt.Sprintf("resp.SetRequestAccepts(%q)", o.Mime)
+	case "hd":
+		switch o.Via {
+		case "add":
+			return fmt.Sprintf("resp.Header().Add(%q, %q)", o.HName, o.HValue)
+		case "addheader":
+			return fmt.Sprintf("resp.AddHeader(%q, %q)", o.HName, o.HValue)
+		case "raw":
+			return fmt.Sprintf("resp.Header()[%q] = []string{%q}", o.HName, o.HValue)
+		case "del":
+			return fmt.Sprintf("resp.Header().Del(%q)", o.HName)
+		}
+		return fmt.Sprintf("resp.Header().Set(%q, %q)", o.HName, o.HValue)
 	case "wh":
 		return fmt.Sprintf("resp.WriteHeader(%d)", o.Status)
 	case "w":
